@@ -35,6 +35,8 @@ const (
 	tracebackLen  = 32
 	tracebackStop = "pgregory.net/rapid.checkOnce"
 	runtimePrefix = "runtime."
+
+	failOnErrorFunc = "pgregory.net/rapid.(*T).failOnError"
 )
 
 var (
@@ -447,10 +449,14 @@ func panicToError(p any, skip int) *testError {
 		if skipSpecial && (tracebackBlacklist[f.Function] || strings.HasPrefix(f.Function, runtimePrefix)) {
 			continue
 		}
+		first := skipSpecial
 		skipSpecial = false
 
 		_, err := fmt.Fprintf(b, "    %s:%d in %s\n", f.File, f.Line, f.Function)
 		assert(err == nil)
+		if first && f.Function == failOnErrorFunc {
+			break // a non-fatal failure has no site of its own: where rapid noticed it does not matter
+		}
 	}
 
 	return &testError{
